@@ -156,7 +156,7 @@ def repeat_program(reps):
     return f"{B} ({body} ㅎ) ㅎㄴ"
 
 
-STDINS = ["", "one\n", "one\ntwo\nthree\n", "no newline", "a\n\nb\n", "가나다\n😀\n", "\n", "x\ny"]
+STDINS = ["a\x0bb\nc\n", "x\x0cy\n", "p\x1cq\x1dr\x1es\nt\n", "n\x85m\n", "l\u2028k\u2029j\nz\n", "tab\there\n", " lead and trail \n", "", "one\n", "one\ntwo\nthree\n", "no newline", "a\n\nb\n", "가나다\n😀\n", "\n", "x\ny"]
 
 
 def cases(rng, tier):
